@@ -66,6 +66,24 @@ pub fn generate(tier: &str, seed: u64) -> Vec<String> {
         }
         out.push(format!("c02 {}", gen_read_op(&mut rng, &cfg)));
     }
+    // packbits with a bit range (own stream): single- and multi-component data types, regions that are not contiguous
+    {
+        let mut rp = Rng::new(seed ^ 0xC02_9B);
+        for _ in 0..(if thorough { 150 } else { 15 }) {
+            let cfg = gen_packbits_cfg(&mut rp);
+            out.push(cfg.cfg_line("c02", "memory", false, false, ""));
+            out.push(format!("c02 op store_array_subset r={}+{} data={}", nl(&vec![0; cfg.shape.len()]), nl(&cfg.shape), gen_data(&mut rp, &cfg, cfg.shape.iter().product())));
+            let gs = cfg.grid_shape();
+            for _ in 0..6 {
+                let c: Vec<u64> = gs.iter().map(|&g| rp.below(g.max(1))).collect();
+                let cshape = cfg.chunk_origin_shape(&c).1;
+                let rs: Vec<String> = (0..rp.range(1, 3)).map(|_| { let mut st = vec![]; let mut n = vec![]; for &e in &cshape { let a = rp.below(e); st.push(a); n.push(rp.range(1, e - a)); } format!("{}+{}", nl(&st), nl(&n)) }).collect();
+                out.push(format!("c02 op pdx c={} rs={}", nl(&c), rs.join("|")));
+                out.push(format!("c02 op retrieve_chunk_subset c={} r={}", nl(&c), rs[0]));
+                out.push(format!("c02 {}", gen_read_op(&mut rp, &cfg)));
+            }
+        }
+    }
     let mut k = 0;
     while k < ncfg {
         let cfg = gen_cfg(&mut rng, if k % 2 == 0 { Some(true) } else { None });
